@@ -35,6 +35,10 @@ pub fn item_of(v: &Value) -> Item {
 /// a key with a single octet of key information, provider AS numbers 0 and 2^32-1)
 pub static REALISATION: std::sync::atomic::AtomicUsize = std::sync::atomic::AtomicUsize::new(0);
 
+/// octets of key information of the model's router key in the ordinary realisation (0: the usual 91, a P-256 key); the replays
+/// walk this through every length up to 300, because nothing says a writer treats all lengths alike
+pub static KEYINFO_LEN: std::sync::atomic::AtomicUsize = std::sync::atomic::AtomicUsize::new(0);
+
 pub fn payload_of(it: &Item) -> Payload {
     if REALISATION.load(std::sync::atomic::Ordering::SeqCst) == 1 {
         return match it.1.as_str() {
@@ -58,7 +62,10 @@ pub fn payload_of(it: &Item) -> Payload {
         "k1" => Payload::router_key(
             KeyIdentifier::from([0xA5u8; 20]),
             Asn::from_u32(65010),
-            RouterKeyInfo::try_from((0u8..91).collect::<Vec<u8>>()).unwrap(),
+            RouterKeyInfo::try_from({
+                let n = KEYINFO_LEN.load(std::sync::atomic::Ordering::SeqCst);
+                (0..if n == 0 { 91 } else { n }).map(|i| i as u8).collect::<Vec<u8>>()
+            }).unwrap(),
         ),
         "c1" => Payload::aspa(
             Asn::from_u32(65000),
@@ -80,6 +87,15 @@ pub fn item_from(p: &Payload) -> Option<Item> {
 }
 
 pub fn timing_of(t: u64) -> Timing {
+    // the edge realisation: values each inside its RFC 8210 range whose order is unusual (retry as long as expire, refresh
+    // longer than expire) - what the source says is what the client must hold, whatever one thinks of it
+    if REALISATION.load(std::sync::atomic::Ordering::SeqCst) == 1 {
+        match t {
+            1 => return Timing { refresh: 3600, retry: 7200, expire: 7200 },
+            2 => return Timing { refresh: 14400, retry: 900, expire: 10800 },
+            _ => {}
+        }
+    }
     match t {
         1 => Timing { refresh: 11, retry: 12, expire: 13 },
         2 => Timing { refresh: 0x0102_0304, retry: 600, expire: u32::MAX },
@@ -352,6 +368,8 @@ impl AsyncWrite for Sock {
         Pin::new(&mut self.0).poll_write(cx, buf)
     }
     fn poll_flush(mut self: Pin<&mut Self>, cx: &mut Context<'_>) -> Poll<std::io::Result<()>> {
+        // a notification armed to go off with the next query that leaves (NotifyCross)
+        if let Some(mut n) = CROSS.with(|c| c.borrow_mut().take()) { n.notify(); }
         Pin::new(&mut self.0).poll_flush(cx)
     }
     fn poll_shutdown(mut self: Pin<&mut Self>, cx: &mut Context<'_>) -> Poll<std::io::Result<()>> {
@@ -359,6 +377,7 @@ impl AsyncWrite for Sock {
     }
 }
 impl Socket for Sock {}
+thread_local! { static CROSS: std::cell::RefCell<Option<NotifySender>> = const { std::cell::RefCell::new(None) }; }
 
 /// A cache that speaks at most version `max`: the specification's server actions, played by the harness.
 async fn legacy_server(mut sock: DuplexStream, src: Source, max: u8) -> std::io::Result<()> {
@@ -424,6 +443,8 @@ async fn legacy_server(mut sock: DuplexStream, src: Source, max: u8) -> std::io:
 // replay of one behaviour
 // --------------------------------------------------------------------------
 struct StepExp {
+    /// the source notifies just as the query of this step goes out
+    cross: bool,
     ok: bool,
     /// Some(k): the connection is cut once the server has made k source calls in this step
     lost_at: Option<u64>,
@@ -472,6 +493,7 @@ fn run_behaviour(c: &Value, serial_base: u32) -> Result<(), (String, String)> {
                 steps.push((
                     std::mem::take(&mut inj),
                     StepExp {
+                        cross: false,
                         ok: true,
                         lost_at: None,
                         state: Some((st[0].as_u64().unwrap(), st[1].as_u64().unwrap())),
@@ -481,9 +503,10 @@ fn run_behaviour(c: &Value, serial_base: u32) -> Result<(), (String, String)> {
                     },
                 ));
             }
-            "fail" | "lost" => {
+            "fail" | "lost" | "cross" => {
                 let st = e["state"].as_array().unwrap();
                 steps.push((std::mem::take(&mut inj), StepExp {
+                    cross: e["a"] == "cross",
                     ok: false,
                     lost_at: if e["a"] == "lost" { Some(e["at"].as_u64().unwrap()) } else { None },
                     state: if st.is_empty() { None } else { Some((st[0].as_u64().unwrap(), st[1].as_u64().unwrap())) },
@@ -499,9 +522,10 @@ fn run_behaviour(c: &Value, serial_base: u32) -> Result<(), (String, String)> {
     rt.block_on(async move {
         let (a, b) = tokio::io::duplex(1 << 16);
         let dead = src.0.lock().unwrap().dead.clone();
+        let notify = NotifySender::new();
         let srv = if srv_max >= 2 {
             let listener = Box::pin(futures_util::stream::iter(vec![Ok::<Sock, std::io::Error>(Sock(b, dead.clone()))]));
-            let server = Server::new(listener, NotifySender::new(), src.clone());
+            let server = Server::new(listener, notify.clone(), src.clone());
             tokio::spawn(async move {
                 let _ = server.run().await;
             })
@@ -519,10 +543,37 @@ fn run_behaviour(c: &Value, serial_base: u32) -> Result<(), (String, String)> {
                 s.calls = 0;
                 s.pending = inj;
                 s.cut_at = exp.lost_at;
+                if exp.cross {
+                    // whatever the source was to publish before this step's first source call is published now, the notification goes
+                    // off with the client's query
+                    s.flush();
+                }
             }
+            // let the server task reach its select before the query leaves
+            for _ in 0..4 { tokio::task::yield_now().await; }
+            CROSS.with(|c| *c.borrow_mut() = if exp.cross { Some(notify.clone()) } else { None });
             let r = tokio::time::timeout(std::time::Duration::from_secs(30_000_000), client.step()).await;
+            CROSS.with(|c| *c.borrow_mut() = None);
             src.0.lock().unwrap().flush();
             let ok = matches!(r, Ok(Ok(())));
+            if exp.cross && ok {
+                // The step finished after all (a client that skips the notification would): then it must have finished right -
+                // the data of the state the client now names, as the source reported it, for the version both sides speak.
+                let t = client.target();
+                let st = client.state().map(|s| (s.session(), s.serial().0));
+                let s = src.0.lock().unwrap();
+                let eff = cli_init.min(srv_max) as u64;
+                let named = s.hist.iter().find(|v| Some((100 + v.session as u16, serial_base.wrapping_add(v.serial as u32))) == st);
+                return match named {
+                    None => Err(("cross:state".into(), format!("step {} finished across a Serial Notify naming a state {st:?} the source never had", i + 1))),
+                    Some(v) => {
+                        let want: std::collections::BTreeSet<Item> = v.data.iter().filter(|it| it.0 <= eff).cloned().collect();
+                        if t.data != want {
+                            Err(("cross:data".into(), format!("step {} finished across a Serial Notify with client data {:?}; the source's data for that state is {:?}", i + 1, t.data, want)))
+                        } else { Ok(()) }
+                    }
+                };
+            }
             if ok != exp.ok {
                 return Err((
                     format!("step:{}", if exp.ok { "failed" } else { "succeeded" }),
@@ -577,7 +628,8 @@ fn run_behaviour(c: &Value, serial_base: u32) -> Result<(), (String, String)> {
 pub fn replay(args: &[String]) {
     let cases = read_cases(&args[0]);
     let mut s = Summary::new();
-    for c in &cases {
+    for (ci, c) in cases.iter().enumerate() {
+        KEYINFO_LEN.store(1 + (ci * 7) % 300, std::sync::atomic::Ordering::SeqCst);
         for base in [0u32, 0xFFFF_FFFF] {
             // the runs on the shifted serial base also use the edge realisation of the payload items
             REALISATION.store(if base == 0 { 0 } else { 1 }, std::sync::atomic::Ordering::SeqCst);
